@@ -36,7 +36,7 @@ CLAIMED = {
         "TLC; every emitted history is replayed with one fresh python interpreter per process segment sharing a scratch cache directory, each "
         "job's full result tuple (lines, variables, printouts, errors, verdict, counters, headers) compared with the same job run first in a fresh "
         "process with an empty cache; files have header cells with quotes, delimiters, blanks and names on which header cleaning is not idempotent.",
-        note="Trusted: TLC; subprocess isolation; PYTHONHASHSEED fixed. Histories with a warm-cache/not-in-memory job are prioritised. One CsvPaths instance per process.",
+        note="Trusted: TLC; subprocess isolation; each process has its own PYTHONHASHSEED. Histories with a warm-cache/not-in-memory job are prioritised. One CsvPaths instance per process.",
         technique="TLA+ history spec model-checked with TLC; TLC-generated histories replayed with real interpreter processes",
         ref="7 (C19)",
     ),
